@@ -752,7 +752,7 @@ func genC07(r *Rng, e *Emitter, n int) {
 			// sometimes every ordinate is a whole number (of any magnitude): then limiting the decimal
 			// digits written changes no value, and encoding with that option must round-trip as well
 			whole := r.chance(1, 4)
-			digits := r.Intn(18)
+			digits := r.Intn(19) - 1 // (-1: "as many as needed")
 			if whole {
 				scale := math.Ldexp(1, []int{0, 0, 10, 60, 200, 700, 990}[r.Intn(7)])
 				t.eachCoord(func(c geom.Coord) {
@@ -946,4 +946,43 @@ func (t *gtree) eachCoord(f func(geom.Coord)) {
 	for _, m := range t.members {
 		m.eachCoord(f)
 	}
+}
+
+// eachRun calls f for every run of coordinates (line, ring) of the tree.
+func (t *gtree) eachRun(f func([]geom.Coord)) {
+	if t.kind == "ls" {
+		f(t.c1)
+	}
+	for _, cs := range t.c2 {
+		f(cs)
+	}
+	for _, css := range t.c3 {
+		for _, cs := range css {
+			f(cs)
+		}
+	}
+	for _, m := range t.members {
+		m.eachRun(f)
+	}
+}
+
+// zeroSignClosure makes runs of four and more coordinates return to their first vertex up to the
+// sign of a zero: one ordinate is +0 in the first vertex and -0 in the last (or the other way
+// round) — equal numbers, different bits.
+func (t *gtree) zeroSignClosure(r *Rng) bool {
+	did := false
+	t.eachRun(func(cs []geom.Coord) {
+		if len(cs) < 4 || len(cs[0]) == 0 || len(cs[0]) != len(cs[len(cs)-1]) || !r.chance(1, 2) {
+			return
+		}
+		first, last := cs[0], cs[len(cs)-1]
+		copy(last, first)
+		k := r.Intn(len(first))
+		first[k], last[k] = 0, math.Copysign(0, -1)
+		if r.chance(1, 2) {
+			first[k], last[k] = last[k], first[k]
+		}
+		did = true
+	})
+	return did
 }
